@@ -351,6 +351,9 @@ func checkC12(c *Ctx) {
 			c.Rep.Fatal(err.Error())
 			return
 		}
+		if projReplay(c, raw, "highlight hover") {
+			return
+		}
 		jb := c12Build(1, raw)
 		jb.Raw = raw
 		p1 := c.NewPool(1)
@@ -373,6 +376,8 @@ func checkC12(c *Ctx) {
 	modulesRuns(c, p, c12ModBuild, judge)
 	flush()
 	_ = okAll
+	// Project.tla: workspaces analysed as a project (entry file + what it requires), both modes
+	projectRuns(c, p, 0, "highlight hover")
 	c.poolStats(p)
 	if surveyMode {
 		sv.dump()
